@@ -276,6 +276,7 @@ func (f *Frame) mergeStates(preds []*ssa.BasicBlock, edges []string) *State {
 func (f *Frame) loopHead(li *loopInfo, preds []*ssa.BasicBlock, edges []string) {
 	vc := f.vc
 	b := li.head
+	li.entryState = f.cur.clone()
 	// 1. invariant on entry
 	entryPhis := map[*ssa.Phi]string{}
 	for _, in := range b.Instrs {
@@ -301,6 +302,7 @@ func (f *Frame) loopHead(li *loopInfo, preds []*ssa.BasicBlock, edges []string) 
 	}
 	sort.Strings(mk)
 	entryState := f.cur.clone()
+	li.entryState = entryState
 	for _, k := range mk {
 		if _, ok := vc.eng.keySort[k]; !ok {
 			continue
@@ -521,6 +523,9 @@ func (f *Frame) bodyExpr(li *loopInfo, c *Clause, phis map[*ssa.Phi]string, from
 		return f.lookupVarAt(name, li.head, li.headState)
 	}
 	env.visitedOf = f.visitedFn(li)
+	if li.entryState != nil {
+		env.loopEntry = stateHeap{f, li.entryState}
+	}
 	tv, err := env.tr(c.Expr)
 	if err != nil {
 		f.vc.errorf("%s:%d: %v", c.File, c.Line, err)
@@ -581,6 +586,9 @@ func (f *Frame) loopExpr(li *loopInfo, c *Clause, phis map[*ssa.Phi]string, st *
 		return f.lookupVarAt(name, li.head, st)
 	}
 	env.visitedOf = f.visitedFn(li)
+	if li.entryState != nil {
+		env.loopEntry = stateHeap{f, li.entryState}
+	}
 	tv, err := env.tr(c.Expr)
 	if err != nil {
 		f.vc.errorf("%s:%d: %v", c.File, c.Line, err)
